@@ -7,8 +7,8 @@ Transcribed from `src/scippneutron/conversion/tof.py`:
 `hkl_vec_from_Q_vec`, `hkl_elements_from_hkl_vec`.
 
 Vectors and matrices are scipp's `vector3` / `linear_transform3` (always float64, hence one
-carrier `α`; a float32 wavelength is promoted by scipp when `2π / wavelength` is formed with the
-Python float `2*np.pi`).  `sc.spatial.inv` of a 3×3 matrix is the closed-form cofactor inverse.
+carrier `α` for the computation; a float32 wavelength is promoted by scipp when `2π / wavelength`
+is formed with the Python float `2*np.pi`, and the components of Q are narrowed back at the end).  `sc.spatial.inv` of a 3×3 matrix is the closed-form cofactor inverse.
 -/
 namespace ScnVerif.QVec
 open ScnVerif
@@ -71,13 +71,20 @@ variable {α : Type} [Add α] [Sub α] [Mul α] [Div α] [Neg α] [Trans α] [Of
 /-- the Python float `2 * np.pi` -/
 def twoPi : α := 2 * Trans.pi
 
-/-- `Q_elements_from_wavelength`: returns `(Qx, Qy, Qz)` -/
-def qElements (wavelength : α) (incidentBeam scatteredBeam : V3 α) : V3 α :=
+/-- `Q_elements_from_wavelength`: returns `(Qx, Qy, Qz)`.  Everything is computed in float64
+(`vector3` is float64 and `2*np.pi / wavelength` promotes a float32 wavelength); each component is
+finally narrowed by `as_float_type(·, wavelength)`, modelled by `down : α → ρ` (`ρ` =
+`float_dtype(wavelength)`: `Float.toFloat32` for a float32 wavelength, the identity otherwise). -/
+def qElementsCast {ρ : Type} (down : α → ρ) (wavelength : α) (incidentBeam scatteredBeam : V3 α) : V3 ρ :=
   let ei := V3.sdiv incidentBeam (V3.norm incidentBeam)
   let ef := V3.sdiv scatteredBeam (V3.norm scatteredBeam)
   let e := V3.sub ei ef
   let k := twoPi / wavelength
-  ⟨k * e.x, k * e.y, k * e.z⟩
+  ⟨down (k * e.x), down (k * e.y), down (k * e.z)⟩
+
+/-- the kernel where the result type is the working type (float64 wavelength; `ℝ`): the cast is the identity -/
+def qElements (wavelength : α) (incidentBeam scatteredBeam : V3 α) : V3 α :=
+  qElementsCast (fun x => x) wavelength incidentBeam scatteredBeam
 
 /-- `ub_matrix_from_u_and_b` -/
 def ubFromUAndB (u b : M3 α) : M3 α := M3.mul u b
